@@ -212,4 +212,115 @@ theorem applyLoop_ok_iff (segs : List Seg) (st : AState) (prev : Option Nat)
         · simp [ho, okB, hp]
         · simp [ho, okB, hp]
 
+/-! ### Format arbitration helpers -/
+
+theorem foldl_max_ge (l : List Nat) (a : Nat) : a ≤ l.foldl max a ∧ ∀ t ∈ l, t ≤ l.foldl max a := by
+  induction l generalizing a with
+  | nil => simp
+  | cons x xs ih =>
+    simp only [List.foldl_cons, List.mem_cons]
+    have := ih (max a x)
+    refine ⟨by omega, ?_⟩
+    intro t ht
+    rcases ht with ht | ht
+    · subst ht; omega
+    · exact this.2 t ht
+
+theorem foldl_max_mem (l : List Nat) (a : Nat) : l.foldl max a = a ∨ l.foldl max a ∈ l := by
+  induction l generalizing a with
+  | nil => simp
+  | cons x xs ih =>
+    simp only [List.foldl_cons, List.mem_cons]
+    rcases ih (max a x) with h | h
+    · rw [h]
+      rcases Nat.le_total a x with hx | hx
+      · right; left; omega
+      · left; omega
+    · right; right; exact h
+
+theorem maxTime_ge (l : List Nat) : ∀ t ∈ l, t ≤ maxTime l := (foldl_max_ge l 0).2
+theorem maxTime_mem (l : List Nat) : maxTime l = 0 ∨ maxTime l ∈ l := foldl_max_mem l 0
+
+def SortedN : List Nat → Prop
+  | [] => True
+  | x :: xs => (∀ a ∈ xs, x ≤ a) ∧ SortedN xs
+
+theorem lastBefore_none (T : Nat) (l : List Nat) : lastBefore T l = none ↔ ∀ u ∈ l, ¬ u < T := by
+  induction l with
+  | nil => simp [lastBefore]
+  | cons x xs ih =>
+    simp only [lastBefore, List.mem_cons]
+    cases h : lastBefore T xs with
+    | some s =>
+      simp only [reduceCtorEq, false_iff]
+      intro hall
+      have := ih.2 (fun a ha => hall a (Or.inr ha))
+      rw [h] at this; cases this
+    | none =>
+      have hx := ih.1 h
+      by_cases hp : x < T
+      · simp only [hp, if_true, reduceCtorEq, false_iff]
+        intro hall; exact hall x (Or.inl rfl) hp
+      · simp only [hp, if_false, true_iff]
+        intro u hu
+        rcases hu with hu | hu
+        · subst hu; exact hp
+        · exact hx u hu
+
+theorem lastBefore_sorted (T : Nat) (l : List Nat) (hs : SortedN l) (s : Nat) (h : lastBefore T l = some s) :
+    s ∈ l ∧ s < T ∧ ∀ a ∈ l, a < T → a ≤ s := by
+  induction l with
+  | nil => simp [lastBefore] at h
+  | cons x xs ih =>
+    simp only [lastBefore] at h
+    cases hx : lastBefore T xs with
+    | some s' =>
+      rw [hx] at h
+      cases h
+      have := ih hs.2 hx
+      refine ⟨List.mem_cons_of_mem _ this.1, this.2.1, ?_⟩
+      intro a ha hpa
+      simp only [List.mem_cons] at ha
+      rcases ha with ha | ha
+      · subst ha; exact hs.1 s this.1
+      · exact this.2.2 a ha hpa
+    | none =>
+      rw [hx] at h
+      have hnone := (lastBefore_none T xs).1 hx
+      by_cases hp : x < T
+      · simp [hp] at h
+        subst h
+        refine ⟨List.mem_cons_self, hp, ?_⟩
+        intro a ha hpa
+        simp only [List.mem_cons] at ha
+        rcases ha with ha | ha
+        · subst ha; exact Nat.le_refl _
+        · exact absurd hpa (hnone a ha)
+      · simp [hp] at h
+
+
+def v3Times (snaps : List Snap) (segs : List Seg) : List Nat := snaps.map (·.created) ++ segs.map (·.created)
+
+theorem v3UpdatedAt_ge (snaps : List Snap) (segs : List Seg) : ∀ t ∈ v3Times snaps segs, t ≤ v3UpdatedAt snaps segs := by
+  intro t ht
+  simp only [v3Times, List.mem_append] at ht
+  unfold v3UpdatedAt
+  rcases ht with ht | ht
+  · have := maxTime_ge _ t ht; omega
+  · have := maxTime_ge _ t ht; omega
+
+theorem v3UpdatedAt_mem (snaps : List Snap) (segs : List Seg) :
+    v3UpdatedAt snaps segs = 0 ∨ v3UpdatedAt snaps segs ∈ v3Times snaps segs := by
+  unfold v3UpdatedAt v3Times
+  rcases Nat.le_total (maxTime (snaps.map (·.created))) (maxTime (segs.map (·.created))) with h | h
+  · rw [Nat.max_eq_right h]
+    rcases maxTime_mem (segs.map (·.created)) with h' | h'
+    · exact Or.inl h'
+    · exact Or.inr (List.mem_append_right _ h')
+  · rw [Nat.max_eq_left h]
+    rcases maxTime_mem (snaps.map (·.created)) with h' | h'
+    · exact Or.inl h'
+    · exact Or.inr (List.mem_append_left _ h')
+
+
 end Litestream.V3
